@@ -81,6 +81,11 @@ pub fn choose(kind: u8, n: usize) -> usize {
     CHOOSER.with(|c| {
         let mut c = c.borrow_mut();
         let idx = c.trace.len();
+        if idx == 20_000_000 {
+            // (memory guard: an execution of this engine has thousands of choice points, not tens of millions)
+            drop(c);
+            panic!("livelock: 20 million choice points in one execution");
+        }
         let n16 = n.min(u16::MAX as usize) as u16;
         let taken = if idx < c.prefix.len() {
             let p = c.prefix[idx];
@@ -203,6 +208,12 @@ pub struct JobResult {
     /// first violation of each class (fewest deviations first, since DFS by bound iteration)
     pub violations: BTreeMap<String, ViolationRec>,
     pub violation_count: u64,
+    /// executions of this job that ended in a violation
+    pub violating_execs: u64,
+    /// the job was not explored any further after several violating executions (there is a verdict)
+    pub stopped_after_violations: bool,
+    /// the job was never started: enough other jobs had failed (there is a verdict)
+    pub skipped: bool,
     pub machinery_errors: Vec<String>,
     pub sample: Option<(Vec<ChoicePoint>, Vec<String>)>,
     pub bound_completed: usize,
@@ -229,6 +240,7 @@ impl Pending {
 }
 
 struct JobState {
+    counted_as_violating: bool,
     job: Job,
     /// one stack per deviation count: all executions with d deviations are run
     /// before any with d+1 (iterated bound), so the first violation found has
@@ -242,7 +254,7 @@ struct JobState {
 
 impl JobState {
     fn has_work(&self) -> bool {
-        !self.res.capped && self.stacks.iter().any(|s| !s.is_empty())
+        !self.res.capped && !self.res.stopped_after_violations && self.stacks.iter().any(|s| !s.is_empty())
     }
 
     fn new(job: Job) -> Self {
@@ -256,6 +268,7 @@ impl JobState {
         });
         let name = job.name.clone();
         JobState {
+            counted_as_violating: false,
             job,
             stacks,
             res: JobResult {
@@ -269,7 +282,7 @@ impl JobState {
     }
 
     fn pop(&mut self) -> Option<Pending> {
-        if self.res.capped {
+        if self.res.capped || self.res.stopped_after_violations {
             return None;
         }
         for s in self.stacks.iter_mut() {
@@ -318,6 +331,13 @@ impl JobState {
         }
         if r.sample.is_none() && !verdict.trivial {
             r.sample = Some((trace.clone(), verdict.log.clone()));
+        }
+        if verdict.violations.iter().any(|v| !is_known_class(&v.class)) {
+            r.violating_execs += 1;
+            // a failing execution may cost seconds (horizons, loop guards); a handful of them is a verdict
+            if r.violating_execs >= 8 {
+                r.stopped_after_violations = true;
+            }
         }
         for v in &verdict.violations {
             r.violation_count += 1;
@@ -377,6 +397,8 @@ struct Shared {
     cv_m: Mutex<()>,
     heartbeat: AtomicU64,
     thread_init: Arc<dyn Fn() + Send + Sync>,
+    /// jobs that have recorded a violation; beyond a dozen, no new job is started
+    violating_jobs: AtomicUsize,
     /// executions in progress, for the watchdog: (abandoned flag, job state, what is being run, since when)
     running: Mutex<Vec<Running>>,
 }
@@ -391,6 +413,22 @@ struct Running {
 /// An execution of the controlled executor takes milliseconds. One that has not returned after this
 /// long is hung: library code blocks its thread (a lock outside the scc seam, e.g. a non-reentrant mutex
 /// taken twice) or loops without ever reaching a choice point.
+/// Once this many jobs have recorded a violation no further job is started (failing executions are slow: they wait
+/// out horizons, loop guards and the watchdog; a dozen failing scenarios is a verdict).
+const MAX_VIOLATING_JOBS: usize = 12;
+
+/// Violation classes that are listed known findings of the check being run: they are reported as usual but do not
+/// count towards the early stops (otherwise a known finding would silently shrink what is explored on the unchanged tree).
+static KNOWN_CLASSES: Mutex<Vec<String>> = Mutex::new(Vec::new());
+
+pub fn set_known_classes(v: Vec<String>) {
+    *KNOWN_CLASSES.lock().unwrap() = v;
+}
+
+fn is_known_class(c: &str) -> bool {
+    KNOWN_CLASSES.lock().unwrap().iter().any(|k| k == c)
+}
+
 const EXECUTION_DEADLINE: Duration = Duration::from_secs(90);
 
 struct Current {
@@ -477,6 +515,10 @@ pub fn on_would_block() {
         let mut st = cur.state.lock().unwrap();
         st.in_flight -= 1;
         st.absorb(&cur.pending, trace, diverged, verdict, outcome);
+        if !st.counted_as_violating && st.res.violations.keys().any(|c| !is_known_class(c)) {
+            st.counted_as_violating = true;
+            cur.shared.violating_jobs.fetch_add(1, Ordering::SeqCst);
+        }
     }
     maybe_finalize(&cur.shared, &cur.state);
     cur.shared.heartbeat.fetch_add(1, Ordering::Relaxed);
@@ -573,6 +615,10 @@ fn drive(shared: &Arc<Shared>, state: &Arc<Mutex<JobState>>, log_fn: fn() -> Vec
             }
         }
         st.absorb(&p, trace, diverged, verdict, Outcome::Done);
+        if !st.counted_as_violating && st.res.violations.keys().any(|c| !is_known_class(c)) {
+            st.counted_as_violating = true;
+            shared.violating_jobs.fetch_add(1, Ordering::SeqCst);
+        }
     }
     maybe_finalize(shared, state);
 }
@@ -592,7 +638,14 @@ fn worker(shared: Arc<Shared>, log_fn: fn() -> Vec<String>) {
                 }
             }
             if found.is_none() {
-                if let Some(job) = shared.queue.lock().unwrap().pop_front() {
+                if shared.violating_jobs.load(Ordering::SeqCst) >= MAX_VIOLATING_JOBS {
+                    // there is a verdict: the jobs not started yet are reported as skipped, not run
+                    let mut q = shared.queue.lock().unwrap();
+                    let mut res = shared.results.lock().unwrap();
+                    while let Some(job) = q.pop_front() {
+                        res.push(JobResult { name: job.name.clone(), skipped: true, ..Default::default() });
+                    }
+                } else if let Some(job) = shared.queue.lock().unwrap().pop_front() {
                     let s = Arc::new(Mutex::new(JobState::new(job)));
                     act.push(s.clone());
                     found = Some(s);
@@ -644,6 +697,7 @@ pub fn run_jobs(
         heartbeat: AtomicU64::new(0),
         thread_init,
         running: Mutex::new(Vec::new()),
+        violating_jobs: AtomicUsize::new(0),
     });
     let spawn = || {
         shared.active.fetch_add(1, Ordering::SeqCst);
@@ -702,6 +756,10 @@ pub fn run_jobs(
                 let mut st = r.state.lock().unwrap();
                 st.in_flight -= 1;
                 st.absorb(&r.pending, prefix, None, verdict, Outcome::ThreadBlocked);
+                if !st.counted_as_violating && st.res.violations.keys().any(|c| !is_known_class(c)) {
+                    st.counted_as_violating = true;
+                    shared.violating_jobs.fetch_add(1, Ordering::SeqCst);
+                }
             }
             maybe_finalize(&shared, &r.state);
             shared.heartbeat.fetch_add(1, Ordering::Relaxed);
